@@ -32,9 +32,7 @@ impl Code {
         match self
             .instructions
             .iter()
-            .map(|instruction| instruction.exec(interpreter))
-            .last()
-            .unwrap_or(Ok(Variable::Void))
+            .try_fold(Variable::Void, |_, instruction| instruction.exec(interpreter))
         {
             Ok(var) => Ok(var),
             Err(ExecStop::Error(err)) => Err(err),
